@@ -145,8 +145,11 @@ func (c *Conn) Read(b []byte) (n int, err error) {
 	// of our AEAD connection, and the stream abstraction of TCP, we
 	// maintain an intermediate read buffer. If this buffer becomes
 	// depleted, then we read the next record, and feed it into the
-	// buffer. Otherwise, we read directly from the buffer.
-	if c.readBuf.Len() == 0 {
+	// buffer. Otherwise, we read directly from the buffer. A record with
+	// an empty payload is valid and contributes nothing to the stream, so
+	// we move on to the next one rather than report the io.EOF of the
+	// still empty buffer for a connection that is alive.
+	for c.readBuf.Len() == 0 {
 		plaintext, err := c.noise.ReadMessage(c.conn)
 		if err != nil {
 			return 0, err
